@@ -119,12 +119,22 @@ def bnot(a):
 
 
 def _and_operands(x):
-    """Operands of a conjunction: a single and-atom contributes its operand set."""
+    """Operands of a conjunction: a single and-atom contributes its operand set; the complement of a
+    disjunction, 1 ^ p ^ q ^ (p & q) = !(p | q), contributes !p and !q (De Morgan), so that
+    `(a ^ b) | (c ^ d) == 0` and `a == b && c == d` have one normal form."""
     if len(x) == 1:
         (a,) = x
         p = _atoms[a]
         if p[0] == "and":
             return p[1]
+    elif ONE_ATOM in x and len(x) >= 4:
+        for a in x:
+            if a:
+                p = _atoms[a]
+                if p[0] == "and" and len(p[1]) == 2:
+                    u, v = tuple(p[1])
+                    if x == (ONE ^ u ^ v ^ frozenset((a,))):
+                        return _and_operands(u ^ ONE) | _and_operands(v ^ ONE)
     return frozenset((x,))
 
 
